@@ -106,7 +106,7 @@ def sort_worker_list(
         worker_list = sorted(
             worker_list,
             key=lambda worker: (
-                worker.main_workplace_id is not target_workplace_id,  # MW1
+                worker.main_workplace_id != target_workplace_id,  # MW1
                 worker.main_workplace_id is not None,  # MW2
                 sum(worker.workamount_skill_mean_map.values()),  # SSP (additional)
             ),
@@ -117,7 +117,7 @@ def sort_worker_list(
             worker_list,
             key=lambda worker: (
                 sum(worker.workamount_skill_mean_map.values()),
-                worker.main_workplace_id is not target_workplace_id,
+                worker.main_workplace_id != target_workplace_id,
                 worker.main_workplace_id is not None,
             ),
         )
@@ -127,7 +127,7 @@ def sort_worker_list(
             worker_list,
             key=lambda worker: (
                 worker.cost_per_time,
-                worker.main_workplace_id is not target_workplace_id,
+                worker.main_workplace_id != target_workplace_id,
                 worker.main_workplace_id is not None,
             ),
         )
@@ -137,7 +137,7 @@ def sort_worker_list(
             worker_list,
             key=lambda worker: (
                 -worker.workamount_skill_mean_map.get(kwargs["name"], -float("inf")),
-                worker.main_workplace_id is not target_workplace_id,
+                worker.main_workplace_id != target_workplace_id,
                 worker.main_workplace_id is not None,
             ),
         )
